@@ -9,6 +9,7 @@ from __future__ import annotations
 import collections
 import collections.abc as cabc
 import itertools
+import types
 import typing
 from dataclasses import dataclass, field, make_dataclass
 from typing import Annotated, Any, Dict, FrozenSet, Iterable, List, Literal, Mapping, NewType, Optional, Sequence, Set, Tuple, Union
@@ -61,8 +62,11 @@ POOL = [
     ("List[int]", List[int], [[1, 2], []]), ("list[int]", list[int], [[1]]), ("List[str]", List[str], [["a"]]), ("List[bool]", List[bool], [[True]]), ("List[Any]", List[Any], [[1, "a"]]),
     ("Set[int]", Set[int], [{1}]), ("FrozenSet[int]", FrozenSet[int], [frozenset({1})]), ("Tuple[int,...]", Tuple[int, ...], [(1, 2)]), ("Tuple[str,...]", Tuple[str, ...], [("a",)]),
     ("Tuple[int,str]", Tuple[int, str], [(1, "a")]), ("Tuple[str,int]", Tuple[str, int], [("a", 1)]), ("Tuple[()]", Tuple[()], [()]),
-    ("Sequence[int]", Sequence[int], [[1], (2,)]), ("Iterable[str]", Iterable[str], [["a"]]), ("Deque[int]", typing.Deque[int], [collections.deque([1])]),
-    ("Dict[str,int]", Dict[str, int], [{"a": 1}]), ("Dict[str,str]", Dict[str, str], [{"a": "b"}]), ("Dict[int,int]", Dict[int, int], [{1: 1}]), ("Mapping[str,int]", Mapping[str, int], [{"a": 1}]),
+    ("Sequence[int]", Sequence[int], [[1], (2,), collections.deque([3]), collections.UserList([4]), range(2)]), ("Iterable[str]", Iterable[str], [["a"], {"a": 1}.keys(), ("a",), frozenset({"a"})]),
+    ("Collection[int]", typing.Collection[int], [{1}, (1,), {1: 2}.keys()]), ("AbstractSet[int]", typing.AbstractSet[int], [frozenset({1}), {1: 2}.keys()]), ("Deque[int]", typing.Deque[int], [collections.deque([1])]),
+    ("Dict[str,int]", Dict[str, int], [{"a": 1}]), ("Dict[str,str]", Dict[str, str], [{"a": "b"}]), ("Dict[int,int]", Dict[int, int], [{1: 1}]), ("Mapping[str,int]", Mapping[str, int], [{"a": 1}, types.MappingProxyType({"a": 1}), collections.ChainMap({"a": 1})]),
+    ("MutableMapping[str,int]", typing.MutableMapping[str, int], [{"a": 1}, collections.ChainMap({"a": 1}), collections.UserDict({"a": 1})]),
+    ("Mapping[str,bool]", Mapping[str, bool], [types.MappingProxyType({"a": True})]),
     ("Optional[int]", Optional[int], [None, 1]), ("Optional[str]", Optional[str], [None, "s"]), ("Optional[List[int]]", Optional[List[int]], [None, [1]]),
     ("Optional[List[str]]", Optional[List[str]], [None, ["a"]]), ("Union[int,str]", Union[int, str], [1, "s"]), ("Union[str,int]", Union[str, int], [1, "s"]),
     ("Union[int,str,None]", Union[int, str, None], [1, "s", None]), ("Union[int,bool,None]", Union[int, bool, None], [1, True, None]), ("Union[List[str],int]", Union[List[str], int], [["a"], 1]),
@@ -189,7 +193,8 @@ def conforms(v, d):  # noqa: C901, PLR0911, PLR0912
     if k == "tuple":
         return isinstance(v, tuple) and len(v) == len(d[1]) and all(conforms(x, e) for x, e in zip(v, d[1]))
     if k == "dict":
-        return isinstance(v, cabc.Mapping) and all(conforms(a, d[2]) and conforms(b, d[3]) for a, b in v.items())
+        expected = {"dict": dict, "Mapping": cabc.Mapping, "MutableMapping": cabc.MutableMapping}[d[1]]   # a mappingproxy in a Dict field is not type-sound
+        return isinstance(v, expected) and all(conforms(a, d[2]) and conforms(b, d[3]) for a, b in v.items())
     if k == "gen":
         if not isinstance(v, d[1]):
             return False
@@ -253,6 +258,48 @@ def check_pair(ctx, sname, dname, wrapper):
 
 def _shape(d):
     return d[0] if d[0] not in ("cls",) else ("model" if d[1] in MODELS else "class")
+
+
+def check_refusal_after_enabling_recipe(ctx, rng=None):
+    """Whether a pair is refused is a function of (source, destination, recipe of THIS request): having converted the same pair a moment
+    ago with a per-call recipe that allowed it (a coercer, allow_unlinked_optional) must not make the plain request succeed, in either
+    order, through get_converter, convert, and a user retort (seeded change: converter cache keyed without the recipe)."""
+    from adaptix.conversion import ConversionRetort, coercer, convert  # noqa: PLC0415
+
+    def fresh():
+        S = make_dataclass("S", [("a", int), ("n", int)])
+        DCo = make_dataclass("DCo", [("a", int), ("n", str)])                       # int -> str: no implicit coercion
+        DUn = make_dataclass("DUn", [("a", int), ("n", int), ("x", int, field(default=5))])   # unlinked optional: refused by default
+        return S, DCo, DUn
+    for api in ("get_converter", "convert", "retort.get_converter", "retort.convert"):
+        for order in ("enabled-first", "plain-first"):
+            S, DCo, DUn = fresh()
+            retort = ConversionRetort()
+            for dst, enabler, label in ((DCo, [coercer(int, str, str)], "coercer"), (DUn, [allow_unlinked_optional("x")], "unlinked-optional")):
+                def ask(recipe, dst=dst):
+                    if api == "get_converter":
+                        return attempt(lambda: get_converter(S, dst, recipe=recipe)(S(1, 2)))
+                    if api == "convert":
+                        return attempt(lambda: convert(S(1, 2), dst, recipe=recipe))
+                    if api == "retort.get_converter":
+                        return attempt(lambda: retort.get_converter(S, dst, recipe=recipe)(S(1, 2)))
+                    return attempt(lambda: retort.convert(S(1, 2), dst, recipe=recipe))
+                seq = [("enabled", enabler), ("plain", []), ("enabled", enabler), ("plain", [])] if order == "enabled-first" else [("plain", []), ("enabled", enabler), ("plain", [])]
+                for step, (kind, recipe) in enumerate(seq):
+                    out = ask(recipe)
+                    ctx.evaluated(("refusal-history", api, order, label, step))
+                    ctx.count("refusal_history_requests")
+                    if kind == "plain" and out.kind == "ok":
+                        ctx.violation(f"refused-pair-converted-after-enabling-recipe:{label}", f"{api}: request #{step} for S -> {dst.__name__} WITHOUT recipe gave {out.value!r} "
+                                      f"after the same pair had been converted with a per-call {label} recipe ({order})", {"api": api, "order": order, "label": label})
+                        break
+                    if kind == "plain" and not isinstance(out.exc, ProviderNotFoundError):
+                        ctx.violation(f"refusal-is-{type(out.exc).__name__}:history", f"{api}/{label}/{order}: {out.exc!r}", {})
+                        break
+                    if kind == "enabled" and out.kind != "ok":
+                        ctx.violation(f"enabled-pair-refused-after-plain-request:{label}", f"{api}: request #{step} for S -> {dst.__name__} with the {label} recipe failed ({out!r:.200}) ({order})",
+                                      {"api": api, "order": order, "label": label})
+                        break
 
 
 def check_policies(ctx):
@@ -329,4 +376,4 @@ def _witness(ctx):
         check_pair(ctx, s, d, "plain")
 
 
-DIRECTED = {"union-origin-only-and-empty-tuple": _witness}
+DIRECTED = {"union-origin-only-and-empty-tuple": _witness, "refusal-does-not-depend-on-history": check_refusal_after_enabling_recipe}
